@@ -233,7 +233,8 @@ func (p *process) cleanup(cancel context.CancelFunc) {
 	// Only now is the child gone for its parent: a parent that shuts down while
 	// this cleanup is still running must wait for it.
 	if p.context.parentCtx != nil {
-		p.context.parentCtx.children.Delete(p.pid.ID)
+		// our own entry only: the parent may already have a new child under this id.
+		p.context.parentCtx.children.DeleteIf(p.pid.ID, func(pid *PID) bool { return pid == p.pid })
 	}
 
 	p.context.engine.BroadcastEvent(ActorStoppedEvent{PID: p.pid, Timestamp: time.Now()})
